@@ -18,7 +18,7 @@ LEVEL = 'model_checking'
 FUNCTIONS = ['mofun.cli.mofun_cli.mofun_cli (callback)', 'mofun.cli.mofun_cli.assign_pair_params_to_structure', 'click option declarations (static)']
 BOUNDS = {'quick': 'symbolic atol, replace fraction, mic (reals), three hints (ints or None), three replication factors, symbolic cell widths; every '
                    'combination of {find given, replace given, replicate given, mic given, pp, charge file, extract-uc, dump}; suffix dispatch for '
-                   '.cif/.lmpdat/.cml/.mol/other; 2 end-to-end CliRunner runs on generated files',
+                   '.cif/.lmpdat/.cml/.mol/other; the replace step raising the library overlap error; 2 end-to-end CliRunner runs on generated files',
           'thorough': 'as quick (the space of option combinations is covered in quick)'}
 OUTSIDE = ["click's argv parsing (only the declared options are compared with the documented list)", 'the file formats themselves (C13, C15, C16)',
            'random seeds (the library calls are stand-ins here; C03/C04 cover the generators)']
